@@ -16,7 +16,11 @@ from . import analysis
 
 rule("C10.b", "on every path from the entry of a set-up / report method to a read of self.timegrid.restricted / "
               ".discount_factors the cache has been (re-)established for this asset, with no intervening call that "
-              "re-establishes it for another asset", floor=12)
+              "re-establishes it for another asset", floor=12, props=["C10", "C09", "C07", "C08", "C20", "C15", "C02"])
+rule("C16.r", "a wrapper (scaled / structured / linked asset) reads the shared grid through its own self.timegrid only - never through the grid "
+              "attribute of what it wraps (self.base_asset.timegrid.restricted ...): it is the same grid object, whose sub-grid at that moment "
+              "belongs to the wrapped asset, so the wrapper's own window (the duration its fix costs count for) is replaced by the base asset's",
+     floor=1, props=["C16", "C08", "C17"])
 rule("C10.j", "no result of a method is memoised (lru_cache / cache / cached_property) unless everything it reads is in the key: a method "
               "that reads attributes of its object - or falls back to them when an argument is None - returns what was true for the "
               "object's state at the first call", floor=1, props=["C10", "C06", "C12"])
@@ -202,7 +206,7 @@ def must_assign(fn) -> frozenset:
     return out if out is not None else frozenset()
 
 
-@analysis("gridcache", ["C10.b", "C10.c", "C16.h", "C10.g", "C17.i", "C09.h", "C10.j", "C05.r", "C09.l", "C10.o"])
+@analysis("gridcache", ["C10.b", "C10.c", "C16.h", "C10.g", "C17.i", "C09.h", "C10.j", "C05.r", "C09.l", "C10.o", "C16.r"])
 def run(ctx):
     p = ctx.p
     an = CacheAnalysis(ctx)
@@ -262,6 +266,23 @@ def run(ctx):
                        "the wrapper reads its window / step lengths from the shared grid after the wrapped asset's set-up overwrote them "
                        "(fixed costs over the base asset's duration, linking rows over the last inner asset's window): " + detail, node=sites[0][0])
     ctx.require(n_entries >= 12, "fewer than 12 set-up / report entry methods found on asset classes")
+
+    # ---------------------------------------------------------------- C16.r the grid of the wrapped object
+    n_w = 0
+    for cname in WRAPPERS:
+        ci = p.classes.get(cname)
+        if ci is None:
+            continue
+        for mname, m in sorted(ci.methods.items()):
+            n_w += 1
+            hits = [x for x in au.walk_local(m.node, include_self=False) if isinstance(x, ast.Attribute) and x.attr in GRID_CACHE_ATTRS
+                    and isinstance(x.value, ast.Attribute) and x.value.attr == "timegrid" and au.path(x.value.value) not in (None, "self")
+                    and (au.path(x.value.value) or "").startswith("self.")]
+            ctx.ob("C16.r", m, "the grid cache is read through self.timegrid only", not hits,
+                   "%s reads %s: the sub-grid of the shared grid as the wrapped asset's set-up left it - the wrapper's own life time (clipped to the "
+                   "horizon) is not what it measures (fix costs charged for 24 h instead of the 6 h the scaled asset is active)"
+                   % (m.qualname, au.short(hits[0], 70) if hits else ""), node=(hits[0] if hits else m.node), trivial=not hits and mname != "setup_optim_problem")
+    ctx.require(n_w >= 3, "fewer than 3 wrapper methods found", rules=["C16.r"])
 
     # ---------------------------------------------------------------- C10.j memoised methods
     MEMO = ("lru_cache", "cache", "cached_property", "memoize", "memoized")
